@@ -14,6 +14,10 @@
 (* class T.  Every module after the first imports at least one earlier upstream module.           *)
 (* Family "gen": class P(Generic[...]) over MinParams..MaxParams of the type variables TVarNames in *)
 (* EVERY declaration order, attributes typed by the parameters in the shapes AttrShapes.          *)
+(* Family "nest": NESTED classes (m1.Outer.Inner, see StubImport!NestCT): the last module's uses of  *)
+(* the nested class are declared one by one (AddUse: every subset of NestKinds of at least MinUses  *)
+(* elements, each once - in the order of KindOrder) and then the last module is placed             *)
+(* (PlaceNest: m1 itself, or m2 importing m1 plainly / under an alias).                             *)
 EXTENDS StubImport, Json
 
 CONSTANTS Family,       \* "dag" | "gen"
@@ -25,7 +29,9 @@ CONSTANTS Family,       \* "dag" | "gen"
           FixClasses,   \* dag: subset of {"Cfg", "Own"}
           FirstTargets, \* dag: what m1 may import (the fixtures are mirror images of each other:
                         \*      the quick tier enumerates one half of the c1 <-> c2 symmetry)
-          TVarNames, MinParams, MaxParams, AttrShapes, Locs, Subs   \* gen
+          TVarNames, MinParams, MaxParams, AttrShapes, Locs, Subs,  \* gen
+          NestKinds,    \* nest: subset of {"var", "fn", "ann", "hold", "sub", "kcls"} (KindOrder)
+          NestLocs, MinUses   \* nest: subset of {"same", "plain", "alias"}; least number of uses
 
 VARIABLES mods, gp, gs, gloc, gsub, done
 vars == <<mods, gp, gs, gloc, gsub, done>>
@@ -69,14 +75,31 @@ Place ==
   /\ \E l \in Locs, s \in Subs : gloc' = l /\ gsub' = s
   /\ done' = TRUE /\ UNCHANGED <<mods, gp, gs>>
 
+(* (gp holds the uses declared so far; a use is appended only behind the uses that precede it in   *)
+(* KindOrder, so every subset is built exactly once)                                               *)
+KindOrder == <<"var", "fn", "ann", "hold", "sub", "kcls">>
+KindIx(u) == CHOOSE x \in DOMAIN KindOrder : KindOrder[x] = u
+AddUse ==
+  /\ Family = "nest" /\ ~done
+  /\ \E x \in DOMAIN KindOrder :
+       /\ KindOrder[x] \in NestKinds /\ (gp # <<>> => KindIx(gp[Len(gp)]) < x)
+       /\ gp' = Append(gp, KindOrder[x])
+  /\ UNCHANGED <<mods, gs, gloc, gsub, done>>
+
+PlaceNest ==
+  /\ Family = "nest" /\ ~done /\ Len(gp) >= MinUses
+  /\ \E l \in NestLocs : gloc' = l
+  /\ done' = TRUE /\ UNCHANGED <<mods, gp, gs, gsub>>
+
 Init ==
   /\ mods = IF Family = "dag" THEN <<<<>>>> ELSE <<>>
   /\ gp = <<>> /\ gs = <<>> /\ gloc = "same" /\ gsub = FALSE /\ done = FALSE
-Next == AddImport \/ CloseModule \/ Finish \/ AddParam \/ Place
+Next == AddImport \/ CloseModule \/ Finish \/ AddParam \/ Place \/ AddUse \/ PlaceNest
 Spec == Init /\ [][Next]_vars
 
 World ==
   IF Family = "dag" THEN [fam |-> "dag", mods |-> mods]
+  ELSE IF Family = "nest" THEN [fam |-> "nest", uses |-> gp, loc |-> gloc]
   ELSE [fam |-> "gen", params |-> gp, shapes |-> gs, loc |-> gloc, sub |-> gsub]
 
 (* ---- the model's own obligations (checked by TLC on every world)                              *)
@@ -96,6 +119,9 @@ Closed ==
   done => LET rs == ReadsOf(World) IN
           /\ Len(rs) >= 1
           /\ \A j \in DOMAIN rs : Ground(PathType(ModelD(World), rs[j]))
+          \* a world of nested classes reads an attribute and a method of an Inner instance
+          /\ (Family = "nest" =>
+                \E j \in DOMAIN rs : ThroughNested(ModelD(World), rs[j]) /\ Len(rs[j].p) >= 1)
 
 ExportInv ==
   done => PrintT(<<"CASE", ToJson([w |-> World, reads |-> ReadsOf(World),
